@@ -328,7 +328,13 @@ func vfC13Run(c vfC13Case, ctx *vfCtx) *vfViolation {
 		return nil
 	}
 
+	var keptSearch VectorSearch
+	var keptHits []vfHit
+	keptAt, mutations := -1, 0
 	for i, op := range c.Ops {
+		if op.Op != "search" {
+			mutations++
+		}
 		if op.Op == "purge" {
 			for _, id := range op.IDs {
 				if _, isLive := m.live[id]; !isLive {
@@ -423,6 +429,24 @@ func vfC13Run(c vfC13Case, ctx *vfCtx) *vfViolation {
 					s = s.WithDocumentIDs(op.IDs...)
 				}
 				r, err := s.Execute()
+				if err == nil && len(op.IDs) > 0 {
+					if keptSearch != nil && keptAt == mutations {
+						again, err2 := keptSearch.Execute()
+						if err2 != nil {
+							return nil, fmt.Errorf("re-executing an earlier restricted search: %w", err2)
+						}
+						a := vfHitsOf(again)
+						if len(a) != len(keptHits) {
+							return nil, fmt.Errorf("an earlier restricted search object returned %d results when it was first executed and %d now, after another restricted search ran (no add / remove / flush in between)", len(keptHits), len(a))
+						}
+						for j := range a {
+							if a[j].Score != keptHits[j].Score {
+								return nil, fmt.Errorf("an earlier restricted search object returns score %v at rank %d now, %v when it was first executed", a[j].Score, j, keptHits[j].Score)
+							}
+						}
+					}
+					keptSearch, keptHits, keptAt = s, vfHitsOf(r), mutations
+				}
 				// the same search object executed again answers the same (nothing of the first run may leak
 				// into the second: scratch buffers, sorted copies, pooled filters)
 				if err == nil && (i+np)%2 == 0 {
